@@ -10,10 +10,11 @@ with returned shapes equal to the requested ones.  Tolerance 1e-10 relative.
 """
 import numpy as np
 
-from vf.common import Plan, crandn, held, violated, inconclusive, rng_for, nrm, inner, pick
+from vf.common import Plan, relayout, crandn, held, violated, inconclusive, rng_for, nrm, inner, pick
 from vf.oracles import conv as O
 
 SPEC = {
+    "deciding_monitors": ["fn:convolve", "fn:convolve_data_adjoint", "fn:convolve_filter_adjoint", "in:layout:F", "in:layout:strided", "in:complex64", "in:float32"],
     "rule": ("cases = (D in 1..3, per-axis data/filter lengths with filter shorter / equal / "
              "longer / mixed, batch shape, channels, strides, mode, operand dtypes incl. mixed "
              "real/complex, function or Linop); distinct = those structural classes; "
@@ -129,8 +130,9 @@ def run_case(case):
     D = len(m)
     dshape = case["batch"] + ([case["ci"]] if multi else []) + m
     fshape = ([case["co"], case["ci"]] if multi else []) + n
-    data = crandn(rng, dshape, case["dd"])
-    filt = crandn(rng, fshape, case["df"])
+    lay = sum(case["rs"]) % 8            # 1-3: data F / T / strided; 5-7: filter likewise
+    data = relayout(crandn(rng, dshape, case["dd"]), lay if lay < 4 else 0)
+    filt = relayout(crandn(rng, fshape, case["df"]), lay - 4 if lay >= 4 else 0)
     ge = all(a >= c for a, c in zip(m, n))
     le = all(a <= c for a, c in zip(m, n))
     relcls = "ge" if ge and not le else "le" if le and not ge else "eq" if ge else "mixed"
@@ -140,7 +142,7 @@ def run_case(case):
                                 "dd", "df", "via")}
     defined = mode == "full" or ge or le
     kw = dict(mode=mode, strides=strides, multi_channel=multi)
-    d0, f0 = data.copy(), filt.copy()
+    d0, f0 = data.copy(order="C"), filt.copy(order="C")
     try:
         if case["via"] == "func":
             got = sp.convolve(data, filt, **kw)
